@@ -261,6 +261,8 @@ STRGROUP(define-fun godiv ((a Int) (b Int)) Int (ite (>= a 0) (ite (> b 0) (div 
 (declare-fun bitor (Int Int) Int)
 (declare-fun bitxor (Int Int) Int)
 (declare-fun idx (Int Int) Int)
+(declare-fun akey2 (Int Int) Int)
+(assert (forall ((a Int) (b Int) (c Int) (d Int)) (! (=> (= (akey2 a b) (akey2 c d)) (and (= a c) (= b d))) :pattern ((akey2 a b) (akey2 c d)))))
 (assert (forall ((o Int) (i Int)) (! (= (idx o i) (+ o i)) :pattern ((idx o i)))))
 (declare-fun shl (Int Int) Int)
 (declare-fun shr (Int Int) Int)
